@@ -26,6 +26,9 @@ pub enum Act {
     Undo,
     /// a second replica changes task t (status or purge) and both sync
     Remote { t: u8, what: String },
+    /// ONE commit with several status changes: a -> pending, b -> pending, a -> completed,
+    /// a -> pending (tasks that do not exist are created first)
+    Batch { a: u8, b: u8 },
 }
 
 #[derive(Clone)]
@@ -40,6 +43,8 @@ pub struct WsSys {
     pub kind: Kind,
     pub ntasks: u8,
     pub remote: bool,
+    /// offer the multi-change commits (`Act::Batch`)
+    pub batches: bool,
     pub rebuilds: AtomicU64,
     pub rebuilds_with_gone_entry: AtomicU64,
     pub rebuilds_with_gap: AtomicU64,
@@ -152,6 +157,7 @@ impl WsSys {
             kind,
             ntasks,
             remote,
+            batches: false,
             rebuilds: AtomicU64::new(0),
             rebuilds_with_gone_entry: AtomicU64::new(0),
             rebuilds_with_gap: AtomicU64::new(0),
@@ -239,6 +245,10 @@ impl Sys for WsSys {
                 }
             }
         }
+        if self.batches {
+            v.push(Act::Batch { a: 1, b: 2 });
+            v.push(Act::Batch { a: 2, b: 1 });
+        }
         v.push(Act::Rebuild { renumber: false });
         v.push(Act::Rebuild { renumber: true });
         if s.obs.unsynced.iter().any(|o| !o.is_undo_point()) {
@@ -265,6 +275,27 @@ impl Sys for WsSys {
                 self.commit(&mut n.store, *t, false, None, true)?;
                 n.obs = obs(&mut n.store);
                 check_commit(&before, &n.obs, *t, self)?;
+            }
+            Act::Batch { a, b } => {
+                let (a, b) = (*a, *b);
+                crate::util::block_on(with_replica(&mut n.store, Ctl::new(), async |r| {
+                    let mut ops_ = vec![Operation::UndoPoint];
+                    let mut get = async |t: u8, ops_: &mut Vec<Operation>| -> Result<TaskData, String> {
+                        match r.get_task_data(tid(t)).await.map_err(|e| e.to_string())? {
+                            Some(td) => Ok(td),
+                            None => Ok(TaskData::create(tid(t), ops_)),
+                        }
+                    };
+                    let mut ta = get(a, &mut ops_).await?;
+                    let mut tb = get(b, &mut ops_).await?;
+                    ta.update("status", Some("pending".into()), &mut ops_);
+                    tb.update("status", Some("pending".into()), &mut ops_);
+                    ta.update("status", Some("completed".into()), &mut ops_);
+                    ta.update("status", Some("pending".into()), &mut ops_);
+                    r.commit_operations(ops_).await.map_err(|e| format!("commit-failed: {e:#}"))
+                }))?;
+                n.obs = obs(&mut n.store);
+                check_batch_commit(&before, &n.obs, &[a, b])?;
             }
             Act::Rebuild { renumber } => {
                 let rn = *renumber;
@@ -398,6 +429,28 @@ fn check_commit(before: &Obs, after: &Obs, t: u8, sys: &WsSys) -> Result<(), Str
     Ok(())
 }
 
+/// A commit that made several tasks pending: nothing that was in the working set moves, every
+/// task that became pending is there exactly once, newcomers come after every number in use.
+fn check_batch_commit(before: &Obs, after: &Obs, tasks: &[u8]) -> Result<(), String> {
+    if after.ws.len() < before.ws.len() || after.ws[..before.ws.len()] != before.ws[..] {
+        return Err(format!("moved: a commit changed existing working-set entries [{}] -> [{}]", ws_str(&before.ws), ws_str(&after.ws)));
+    }
+    let idx = index_of(&after.ws);
+    for &t in tasks {
+        let u = tid(t);
+        let n = idx.get(&u).map(|v| v.len()).unwrap_or(0);
+        if in_ws(after.tasks.get(&u).and_then(|m| m.get("status"))) && n != 1 {
+            return Err(format!("not-appended: task {} is pending after the commit and appears {n} times in the working set [{}] (was [{}])", tname(u), ws_str(&after.ws), ws_str(&before.ws)));
+        }
+    }
+    for (u, v) in &idx {
+        if v.len() > 1 {
+            return Err(format!("duplicate: task {} is in the working set {} times after a commit: [{}]", tname(*u), v.len(), ws_str(&after.ws)));
+        }
+    }
+    Ok(())
+}
+
 pub fn replay_trace(sys: &WsSys, tr: &[Act], verbose: bool) -> Result<(), String> {
     let mut s = sys.init();
     for a in tr {
@@ -415,13 +468,14 @@ pub fn replay_trace(sys: &WsSys, tr: &[Act], verbose: bool) -> Result<(), String
 pub fn run(opts: &Opts) -> i32 {
     let rep = Report::new("C15", "model_checking", opts);
     rep.set("exhaustive", true);
-    rep.set("rule", "histories over {create pending/recurring/completed/unknown-status, set status pending/completed/deleted (one task also recurring and an unknown status), purge (Delete), rebuild(renumber=false|true), undo, removal/completion arriving by sync from a second replica} on 3-4 tasks, in-memory and SQLite, plus one working set of 300 (thorough 1500) tasks; after every rebuild (explicit, after sync, after undo) the statement's obligations are evaluated against the previous working set; every commit is checked to append newly pending tasks after all numbers in use and move nothing; non-trivial = states whose working set has a gap or an entry whose task is gone or no longer pending");
+    rep.set("rule", "histories over {create pending/recurring/completed/unknown-status, set status pending/completed/deleted (one task also recurring and an unknown status), purge (Delete), one commit with several status changes of two tasks, rebuild(renumber=false|true), undo, removal/completion arriving by sync from a second replica} on 3-4 tasks, in-memory and SQLite, plus one working set of 300 (thorough 1500) tasks; after every rebuild (explicit, after sync, after undo) the statement's obligations are evaluated against the previous working set; every commit is checked to append newly pending tasks after all numbers in use and move nothing; non-trivial = states whose working set has a gap or an entry whose task is gone or no longer pending");
     let q = opts.tier == Tier::Quick;
     let spaces: Vec<(&str, WsSys, usize)> = vec![
         ("mem-3tasks", WsSys::new(Kind::Mem, 3, false), if q { 7 } else { 9 }),
         ("mem-3tasks-remote", WsSys::new(Kind::Mem, 3, true), if q { 5 } else { 7 }),
         ("mem-4tasks", WsSys::new(Kind::Mem, 4, false), if q { 6 } else { 8 }),
         ("sqlite-3tasks", WsSys::new(Kind::Sqlite, 3, false), if q { 4 } else { 6 }),
+        ("mem-2tasks-batches", { let mut s = WsSys::new(Kind::Mem, 2, false); s.batches = true; s }, if q { 6 } else { 8 }),
     ];
     let n = spaces.len();
     for (i, (name, sys, depth)) in spaces.into_iter().enumerate() {
@@ -450,7 +504,7 @@ pub fn run(opts: &Opts) -> i32 {
             rep.violation(Violation::new(
                 format!("{}:{name}", f.what.split(':').next().unwrap_or("")),
                 format!("{}{note}", f.what),
-                json!({"kind": "c15-trace", "space": name, "storage": sys.kind, "ntasks": sys.ntasks, "remote": sys.remote, "trace": f.trace, "observed": f.what}),
+                json!({"kind": "c15-trace", "space": name, "storage": sys.kind, "ntasks": sys.ntasks, "remote": sys.remote, "batches": sys.batches, "trace": f.trace, "observed": f.what}),
             ));
         }
     }
